@@ -112,6 +112,7 @@ pub struct Stats {
     pub extra_none: u64,
     pub extra_some_after_done: u64,
     pub after_own_err: u64,
+    pub own_err_after_fault: u64,
     pub extra_polls_after_err: u64,
 
     // builder half
@@ -211,6 +212,7 @@ impl Stats {
         self.extra_none += o.extra_none;
         self.extra_some_after_done += o.extra_some_after_done;
         self.after_own_err += o.after_own_err;
+        self.own_err_after_fault += o.own_err_after_fault;
         self.extra_polls_after_err += o.extra_polls_after_err;
         self.chains += o.chains;
         for (k, v) in o.chains_by_kind {
@@ -270,6 +272,7 @@ impl Stats {
             self.extra_none += s.extra_none;
             self.extra_some_after_done += s.extra_some_after_done;
             self.after_own_err += s.after_own_err;
+            self.own_err_after_fault += s.own_err_after_fault;
             if let Some((_, c)) = s.builder_rejected {
                 add(&mut self.rejected_by_class, c.name(), 1);
             }
